@@ -41,7 +41,8 @@ def run(ctx: Ctx) -> None:
         res = []
         for a in asg:
             fields = dict(zip(names, a))
-            res.append((fields, fm.call(cls, meth, fields, [N] if meth == "format_decl" else [])))
+            for seen_fields, out in fm.call_all(cls, meth, fields, [N] if meth == "format_decl" else []):
+                res.append((seen_fields, out))
         return names, res
 
     cache: Dict[Tuple[str, str], Any] = {}
@@ -82,31 +83,99 @@ def run(ctx: Ctx) -> None:
                    node=types.cls(cls), mod=types, detail={"assignments": len(res)})
 
     # ---------------------------------------------------------------- R17.2
-    ctx.rule("R17.2", "pointer/reference around array/function: child's format_decl with a parenthesised declarator (sigil, qualifiers, name)", minimum=8)
+    # Reference: the C++ declarator grammar.  A type is rendered inside-out around the
+    # declared name; the text of an array or function (and of a pointer chain that ends
+    # in one) continues AFTER the name, so whatever wraps it must hand its own
+    # declarator ("*cv name") to the child's format_decl -- in parentheses when the
+    # child itself is the array/function, because the suffix binds tighter than '*'/'&'.
+    ctx.rule("R17.2", "declarator nesting: a pointer/reference/function around a type whose text continues after the name hands its declarator to the child's format_decl (parenthesised around array/function)", minimum=40)
     sig = {"Pointer": "*", "Reference": "&", "MoveReference": "&&"}
     childf = {"Pointer": "ptr_to", "Reference": "ref_to", "MoveReference": "moveref_to"}
+
+    def chain(tag: str, classes: List[str], inner_field: str = "ptr_to") -> Obj:
+        """placeholder for Pointer{ptr_to=Pointer{ptr_to=Array}} and the like"""
+        if len(classes) == 1:
+            return Obj(classes[0], f"{tag}:{classes[0]}")
+        return Obj(classes[0], f"{tag}:{classes[0]}", preset={childf[classes[0]]: chain(tag + "." + childf[classes[0]], classes[1:])})
+
+    def suffixed(o: Obj) -> bool:
+        while o.cls in childf and childf[o.cls] in o.sub:
+            o = o.sub[childf[o.cls]]
+        return o.cls in SUFFIX
+
+    def describe(o: Obj) -> str:
+        out = [o.cls]
+        while o.cls in childf and childf[o.cls] in o.sub:
+            o = o.sub[childf[o.cls]]
+            out.append(o.cls)
+        return " to ".join(out)
+
+    def squash(t: str) -> str:
+        return re.sub(r"\s*([*&()\[\],])\s*", r"\1", t)
+
+    PTR_SHAPES = [["Type"], ["Array"], ["FunctionType"], ["Pointer", "Type"], ["Pointer", "Array"], ["Pointer", "FunctionType"],
+                  ["Pointer", "Pointer", "Type"], ["Pointer", "Pointer", "Array"], ["Pointer", "Pointer", "FunctionType"]]
     for W in ("Pointer", "Reference", "MoveReference"):
         for meth in ("format", "format_decl"):
-            names, res = cache[(W, meth)]
-            for fields, out in res:
-                child = fields[childf[W]]
-                if not isinstance(child, Obj):
-                    continue
-                K = child.cls
-                cv = "".join(q for q in (" const" if fields.get("const") else "", " volatile" if fields.get("volatile") else ""))
-                if K in SUFFIX:
-                    want_inner = f"({sig[W]}{cv}{' N' if meth == 'format_decl' else ''})"
-                    want = f"<{child.tag}.decl({want_inner})>"
-                    ok = out == want
-                    if (W, K) in NOT_PRODUCIBLE:
-                        if not ok:
-                            ctx.note(f"{W}.{meth} around {K} is not grouped ({out!r}); the parser cannot produce this nesting (grouping parentheses are recognised before '*' and '&' only), so it is outside the statement's domain")
-                        continue
-                    ctx.ob("R17.2", f"types:{W}.{meth}|around {K}{cv}", ok,
-                           msg=f"{W}.{meth} renders a {W.lower()} to {K} as {out!r}; a declarator that binds tighter than the suffix needs parentheses: expected {want!r}", node=types.cls(W), mod=types)
-                else:
-                    want = f"<{child.tag}.format>{sig[W]}{cv}{' N' if meth == 'format_decl' else ''}"
-                    ctx.ob("R17.2", f"types:{W}.{meth}|around {K}{cv}", out == want, msg=f"{W}.{meth} renders {out!r}, expected {want!r}", node=types.cls(W), mod=types, nontrivial=False)
+            names, asg = fm.assignments(W)
+            base_rows = []
+            seen_rows = set()
+            for a in asg:
+                row = dict(zip(names, a))
+                k = tuple((n, v) for n, v in row.items() if n != childf[W] and isinstance(v, (bool, type(None))))
+                if k not in seen_rows:
+                    seen_rows.add(k)
+                    base_rows.append(row)
+            for row in base_rows:
+                for shape in PTR_SHAPES:
+                    fields = dict(row)
+                    fields[childf[W]] = chain(childf[W], shape)
+                    rs = fm.call_all(W, meth, fields, [N] if meth == "format_decl" else [])
+                    for seen_fields, out in rs:
+                        child = seen_fields[childf[W]]
+                        K = child.cls
+                        cv = "".join(q for q in (" const" if fields.get("const") else "", " volatile" if fields.get("volatile") else ""))
+                        nm = " N" if meth == "format_decl" else ""
+                        grouped = f"<{child.tag}.decl(({sig[W]}{cv}{nm}))>"
+                        handed = f"<{child.tag}.decl({sig[W]}{cv}{nm})>"
+                        prefix = f"<{child.tag}.format>{sig[W]}{cv}{nm}"
+                        if K in SUFFIX:
+                            want = [grouped]
+                        elif suffixed(child):
+                            want = [handed]
+                        else:
+                            want = [prefix, handed]
+                        ok = squash(out) in [squash(w) for w in want]
+                        if (W, K) in NOT_PRODUCIBLE:
+                            if not ok:
+                                ctx.note(f"{W}.{meth} around {K} is not grouped ({out!r}); the parser cannot produce this nesting (grouping parentheses are recognised before '*' and '&' only), so it is outside the statement's domain")
+                            continue
+                        ctx.ob("R17.2", f"types:{W}.{meth}|around {describe(child)}{cv}", ok,
+                               msg=f"{W}.{meth} renders a {W.lower()} to {describe(child)} as {out!r}; the text of the {describe(child).split(' to ')[-1]} continues after the declared name, so the declarator must be handed to the child: expected {want[0]!r}",
+                               node=types.cls(W), mod=types, nontrivial=K in SUFFIX or suffixed(child))
+    # a function's return type can itself continue after the name (function returning a pointer to array / function)
+    RET_SHAPES = [["Type"], ["Pointer", "Type"], ["Pointer", "Array"], ["Pointer", "FunctionType"], ["Pointer", "Pointer", "FunctionType"],
+                  ["Reference", "Type"], ["Reference", "Array"], ["Reference", "Pointer", "FunctionType"]]
+    for meth in ("format", "format_decl"):
+        names, asg = fm.assignments("FunctionType")
+        for a in asg:
+            row = dict(zip(names, a))
+            if row["has_trailing_return"] or row["noexcept"] is not None or row["msvc_convention"] is not None or len(row["parameters"]) == 2:
+                continue
+            if not isinstance(row["return_type"], Obj) or row["return_type"].cls != "Type":
+                continue
+            for shape in RET_SHAPES:
+                fields = dict(row)
+                fields["return_type"] = chain("return_type", shape)
+                for seen_fields, out in fm.call_all("FunctionType", meth, fields, [N] if meth == "format_decl" else []):
+                    rt = seen_fields["return_type"]
+                    head = f"<{rt.tag}.decl(" + ("N(" if meth == "format_decl" else "(")
+                    handed = out.startswith(head) and out.endswith(")>")
+                    pre = out.startswith(f"<{rt.tag}.format> " + ("N(" if meth == "format_decl" else "("))
+                    ok = handed or (pre and not suffixed(rt))
+                    ctx.ob("R17.2", f"types:FunctionType.{meth}|returning {describe(rt)}, {len(row['parameters'])} parameter(s){', vararg' if row['vararg'] else ''}", ok,
+                           msg=f"FunctionType.{meth} renders a function returning {describe(rt)} as {out!r}; the return type's text continues after the parameter list, so 'name(params)' must be handed to the return type's format_decl",
+                           node=types.cls("FunctionType"), mod=types, nontrivial=suffixed(rt))
 
     # ---------------------------------------------------------------- R17.3
     ctx.rule("R17.3", "an array lets its element type format the rest of the declarator", minimum=6)
